@@ -93,7 +93,7 @@ fn run() {
         let measure = f.contains_key("alloc");
         let base = CUR.load(std::sync::atomic::Ordering::Relaxed);
         PEAK.store(base, std::sync::atomic::Ordering::Relaxed);
-        let res = std::panic::catch_unwind(std::panic::AssertUnwindSafe(|| ops::dispatch(&op, &f)));
+        let res = std::panic::catch_unwind(std::panic::AssertUnwindSafe(|| run_case(&op, &f)));
         let peak = PEAK.load(std::sync::atomic::Ordering::Relaxed).saturating_sub(base);
         let tail = if measure { format!(" peak={}", peak) } else { String::new() };
         match res {
@@ -110,3 +110,21 @@ fn run() {
 }
 
 pub type Fields = HashMap<String, String>;
+
+/// with the `rayon` feature, `threads=N` runs the case inside a pool of N worker threads
+#[cfg(feature = "rayon")]
+fn run_case(op: &str, f: &Fields) -> String {
+    match f.get("threads").and_then(|t| t.parse::<usize>().ok()) {
+        Some(n) => {
+            let pool = rayon::ThreadPoolBuilder::new().num_threads(n).build().expect("thread pool");
+            let r = pool.install(|| ops::dispatch(op, f));
+            format!("{} parallel=1", r)
+        }
+        None => format!("{} parallel=1", ops::dispatch(op, f)),
+    }
+}
+
+#[cfg(not(feature = "rayon"))]
+fn run_case(op: &str, f: &Fields) -> String {
+    ops::dispatch(op, f)
+}
